@@ -66,6 +66,9 @@ func C12(r *core.Run) {
 		Fails                                []c12Fail
 	}
 	spec := in{dir, r.Pick(2, 3)}
+	if r.Degraded() {
+		spec = in{dir, 1}
+	}
 	run := func(in in, shard, n int, useCLI bool, maxProgs int, o *out) {
 		wd := filepath.Join(in.Dir, fmt.Sprint("w", shard, useCLI))
 		core.Tree{"regex-assembly/toolchain.yaml": c01Yaml, "regex-assembly/include/": "", "rules/": ""}.Materialise(wd)
